@@ -1410,3 +1410,26 @@ Proof.
   simpl app.
   unfold tempfile_prefix. cbn [starts_with]. rewrite (is_hex_not_dot _ Hx). reflexivity.
 Qed.
+
+(* ====================================================================== *)
+(* J. what is indexed can be looked up                                     *)
+(* ====================================================================== *)
+
+(* the statement of C06_indexed_is_served: in every reachable state of an opened cache, an indexed (and
+   therefore counted) key has its file: a lookup returns a complete value of the recorded size.  The look-up in
+   the index, utimes and open of a lookup are ONE atomic step, and so are dropping an entry from the index and
+   unlinking its file (C06_split_lookup_refuted shows what happens otherwise). *)
+Theorem indexed_is_served c d ths sched :
+  disk_ok d -> forallb is_call ths = true ->
+  let w := exec (start c d ths) sched in
+  inited (ws w) = true ->
+  forall k sz, alookup k (index (lru (ws w))) = Some sz ->
+    exists v, visible (ws w) k = Some v /\ blen v = sz.
+Proof.
+  intros Hd Hc w Hini k sz Hi.
+  destruct (reach c d ths sched Hd Hc) as (_ & _ & [X1 X2 _ _]). fold w in X1, X2.
+  rewrite Hini in X1. destruct X1 as (_ & _ & (Hda & _)).
+  pose proof Hi as Hi2. apply Hda in Hi2 as [mt Hf].
+  destruct (X2 _ _ _ Hf) as (i & v & A & B & C). exists v. split; auto.
+  unfold visible, ensure_init. rewrite Hini. unfold amem. rewrite Hi, A. auto.
+Qed.
